@@ -284,11 +284,24 @@ def circle_distance_sig(descs, detail):
     return False
 
 
+LISTED = None  # keys of property C16 currently listed as known (set in main from KNOWN_FINDINGS.txt)
+
+
 def known_key_for(trig, descs, what, detail, obs):
     """The key of the named as-implemented deviation that explains the disagreement `what`
-    on a case whose trigger set (computed by the spec) is `trig`, or None."""
+    on a case whose trigger set (computed by the spec) is `trig`, or None.  Several deviations can
+    be triggered on one case: a key that is still listed as known is preferred over one that has
+    been fixed (whose trigger predicate stays in the spec but no longer excuses anything)."""
+    cands = list(_matching_keys(trig, descs, what, detail, obs))
+    for key in cands:
+        if LISTED is None or key in LISTED:
+            return key
+    return cands[0] if cands else None
+
+
+def _matching_keys(trig, descs, what, detail, obs):
     if what == "dist" and obs.get("rtype") == "CircularRegion" and circle_distance_sig(descs, detail):
-        return "circle-distance-z"
+        yield "circle-distance-z"
     for key, whats in KEY_OBS:
         if key not in trig or what not in whats:
             continue
@@ -299,8 +312,7 @@ def known_key_for(trig, descs, what, detail, obs):
             continue
         if key == "footprint-union-flattened" and obs.get("rtype") != "PolygonalRegion":
             continue
-        return key
-    return None
+        yield key
 
 
 def compare_region(ck, label, descs, op, exp, obs, probes, distidx, replay_base):
@@ -480,7 +492,9 @@ class _Ck(Check):
 
 
 def main(tier):
+    global LISTED
     ck = _Ck("C16", tier, "model_checking")
+    LISTED = set(ck.findings.known)
     ck.cov["rule"] = (
         "a case is (ordered pair of catalogue regions, operation) or one primitive region; all cases are non-trivial "
         "unless both operands are everywhere/nowhere; distinct by (names, operation)"
